@@ -34,6 +34,24 @@ CLAIMED.update({
          "note": "Assumes [A] Python's generator protocol and next() as the only producer; bounded: 416 (csvpath, file, mode) cases compared across collect/next/fast_forward and collect(nexts=n).",
          "tech": TECH + " + bounded differential complement"},
 })
+BT = "bounded differential/oracle runs of the real CsvPaths over a stated finite scope (labelled bounded) + " + TECH
+CLAIMED.update({
+ "C08": {"cat": "other", "text": "Schedule equivalence is a relation between three schedules of the real code; it is checked by running them (alone / serial / breadth-first) on a stated finite set of groups and comparing lines, variables, printouts, validity and counters, plus union/intersection of the caller lines. Proved pieces: the per-line step both schedules call (_consider_line) and clear_run_coordination.",
+         "note": "BOUNDED, not proved: 246 (group, file) cases x six run methods. next_by_line's nested generator loop is not under contract. Assumes members share no mutable state.",
+         "tech": BT},
+ "C09": {"cat": "other", "text": "Proved: the run manifest's status / all_valid / all_completed / error_count written by ResultsRegistrar.register_complete are the conjunction / conjunction / sum over the members (unbounded loops, prefix_sum spec function). Bounded: every archived file of 48 real runs (4 groups x 2 files x six methods) is read back and compared with the in-memory results and its fingerprint.",
+         "note": "The serializer's file writes (ResultSerializer._save) and ResultRegistrar are covered only by the bounded runs; json/csv/hashlib external.",
+         "tech": BT},
+ "C10": {"cat": "other", "text": "Proved: get_run_dir returns a path for which os.path.exists is False under base/<named-paths name>/ (while loop + invariant, file system as uninterpreted predicate); clear_run_coordination forgets the run directory; the strftime format read from the source is strictly monotone in the timestamp and equals the format the :last/:first reader parses (VCs over directive fields). Bounded: run sequences with a scripted clock.",
+         "note": "Assumes strftime/strptime directive semantics; bounded: all sequences of length <=2, all length-3 of one group, stride sample of the rest.",
+         "tech": BT},
+ "C18": {"cat": "other", "text": "Proved: ErrorHandler._handle_if has collected/printed/failed/stopped before it raises (exceptional-exit postconditions, all policies). Bounded: every (member, line) abort point of the stated grid is run on the real CsvPaths for the six run methods, the archive is read back, and a further run on the same instance must archive normally without touching the aborted record.",
+         "note": "BOUNDED for the run methods' exception paths (not under contract). One known finding (abort on the last line -> completed true).",
+         "tech": BT},
+ "C20": {"cat": "other", "text": "Proved: Reference._variable_value returns the stored final value whatever it is (0, False, '' included) and raises exactly when the variable is unknown; get_last_named_result returns the last added result; SourceMode.value reads 'preceding'. Bounded: source-mode preceding chains (every suffix) and variable/tracked/results references on the real CsvPaths.",
+         "note": "_load_csvpath's source-mode branch and header references are covered only by the bounded runs; tracked-variable variant of _variable_value bounded.",
+         "tech": BT},
+})
 NA_REASON = {}
 m = {
  "version": 1, "setup_cmd": "./setup.sh",
